@@ -150,7 +150,7 @@ def classify(ob, parsed):
             elif 'not currently supported by Kani' in desc or 'unsupported' in nm:
                 inconcl.append('construct not supported by Kani reached: ' + desc[:120])
             else:
-                exp = [e for e in expected if e in desc]
+                exp = [e for e in expected if e in desc or e in c['loc']]
                 if exp:
                     expected_seen.update(exp)
                 else:
@@ -219,7 +219,13 @@ def extract_playback_test(text):
     return m.group(1)
 
 
-def native_replay(slot, ob, caps, test_code, outdir, extra_consts=None):
+def loc_key(loc):
+    """'src/x.rs:12:5 in function f' or '/a/b/x.rs:12:5' -> 'x.rs:12:5'"""
+    m = re.search(r'([^/\s]+\.rs:\d+:\d+)', loc)
+    return m.group(1) if m else None
+
+
+def native_replay(slot, ob, caps, test_code, outdir, extra_consts=None, fail_locs=None):
     """Run the concrete playback test natively against the real libraries. -> (reproduced, output)"""
     ov = os.path.join(slot.scratch, 'replay_ov')
     hdir = os.path.join(slot.scratch, 'replay_harness')
@@ -242,6 +248,11 @@ def native_replay(slot, ob, caps, test_code, outdir, extra_consts=None):
     shutil.rmtree(ov, ignore_errors=True)
     shutil.rmtree(hdir, ignore_errors=True)
     if ran and failed:
+        if fail_locs:
+            native = set(re.findall(r'panicked at ([^\s]+\.rs:\d+:\d+)', out))
+            native = set(loc_key(x) for x in native)
+            if not (native & set(fail_locs)):
+                return False, out + '\n[driver] native panic at %s does not match a failing check location %s\n' % (sorted(native), sorted(fail_locs))
         return True, out
     if ran and passed:
         return False, out
@@ -411,7 +422,7 @@ def run_property(prop, tier, obligations, meta, seed=0, only=None, jobs=None, ke
                 continue
             # replay
             item = [p for p in pending if p[0]['id'] == oid][0]
-            rep = replay_failure(slot, prop, ob, item[1], item[2], item[3], logdir)
+            rep = replay_failure(slot, prop, ob, item[1], item[2], item[3], logdir, unknown)
             r['replay'] = rep
             if rep['reproduced'] is True:
                 violations.append((oid, rep['path'], unknown))
@@ -440,7 +451,7 @@ def run_property(prop, tier, obligations, meta, seed=0, only=None, jobs=None, ke
     return exit_code
 
 
-def replay_failure(slot, prop, ob, ov, caps, consts, logdir):
+def replay_failure(slot, prop, ob, ov, caps, consts, logdir, unknown=None):
     """ask Kani for the concrete playback test of a failing harness and run it natively"""
     outdir = os.path.join(VERIF, 'replays', prop, ob['id'].replace('/', '_'))
     shutil.rmtree(outdir, ignore_errors=True)
@@ -458,7 +469,9 @@ def replay_failure(slot, prop, ob, ov, caps, consts, logdir):
         json.dump(dict(meta, error='no concrete playback test produced'), open(os.path.join(outdir, 'meta.json'), 'w'), indent=1)
         return {'reproduced': None, 'why': 'no concrete playback test produced', 'path': outdir}
     open(os.path.join(outdir, 'test.rs'), 'w').write(test)
-    reproduced, out = native_replay(slot, ob, caps, test, outdir, consts)
+    fail_locs = sorted(set(filter(None, [loc_key(u['loc']) for u in (unknown or [])])))
+    meta['fail_locs'] = fail_locs
+    reproduced, out = native_replay(slot, ob, caps, test, outdir, consts, fail_locs)
     msg = re.findall(r"panicked at .*?:\n(.*)", out)
     meta.update(reproduced=reproduced, native_panic=msg[:3])
     json.dump(meta, open(os.path.join(outdir, 'meta.json'), 'w'), indent=1)
@@ -474,7 +487,7 @@ def replay_path(path):
     try:
         ob = {'part': meta['part'], 'needs_parts': meta.get('needs_parts', []), 'harness': meta['harness'], 'id': meta['obligation']}
         outdir = tempfile.mkdtemp(prefix='replay_', dir=slot.scratch)
-        reproduced, out = native_replay(slot, ob, meta['caps'], test, outdir, meta.get('consts'))
+        reproduced, out = native_replay(slot, ob, meta['caps'], test, outdir, meta.get('consts'), meta.get('fail_locs'))
         tail = '\n'.join(out.splitlines()[-25:])
         log(tail)
         if reproduced:
